@@ -215,7 +215,7 @@ class APPLY:
     only_raises = ["Exception"]
     frame = ["self", "data"]
     assumes = ["t is a class (an unevaluated ForwardRef raises TypeError: counted as rejection; C17)",
-               "the registered converter of t is the leaf function of t (dispatch audit)"]
+               "the registered converter of t is the leaf function of t (which converter that is: C16, TypeRegistry.resolve)"]
 
 
 @contract(T, "TypeTransformer.__call__", props=["C11", "C09", "C01", "C03", "C04"])
@@ -365,6 +365,7 @@ class PARSE_SEQ_ARGS:
               non-offenders are converted as under exclude.
     The result is a fresh list; value is not mutated; nothing but ParseError escapes."""
     self_model = "RuleClass"
+    replay = "seq_args"
     cases = _seq_cases()
     result = LIST
     returns_by_case = _by_policy(
@@ -544,6 +545,7 @@ class PARSE_TUPLE_ARGS:
     rejects them); a missing prefix item is an absence error; items beyond the prefix are rejected when
     addition is False or under no_data_loss (C12), converted when addition is a type, copied when it is
     True, dropped otherwise.  Collecting: a return that recorded nothing is a clean parse (C10)."""
+    replay = "tuple_args"
     self_model = "RuleClass"
     cases = _tuple_cases()
     result = TUPLE
@@ -696,6 +698,7 @@ class PARSE_MAP_ARGS:
     offender under `preserve`; under `throw` an offender is an error (raised at once, or recorded when
     collecting).  The result holds an entry for exactly the kept pairs (first key object, last value,
     as dict assignment does), is a fresh dict, and the input is not mutated."""
+    replay = "map_args"
     self_model = "RuleClass"
     cases = _map_cases()
     result = DICT
@@ -735,6 +738,7 @@ def _contains_cases():
 class PARSE_CONTAINS:
     """documented: at least one item of the `contains` type, and between min_contains and max_contains
     of them; the value itself is returned unchanged."""
+    replay = "contains"
     self_model = "RuleClass"
     cases = _contains_cases()
     loops = {0: dict(invariant={"counted": "contains == %s" % _CC.format("_k"), "errors": _ERRS_SAME})}
